@@ -3,6 +3,10 @@ package bitcoin_reader
 import (
 	"context"
 	"fmt"
+	"sync"
+	"time"
+
+	"github.com/google/uuid"
 
 	"github.com/pkg/errors"
 	"github.com/tokenized/pkg/bitcoin"
@@ -277,3 +281,165 @@ var chainHash0 = func() []bitcoin.Hash32 {
 }()
 
 var _ = wire.CmdBlock
+
+func init() {
+	verifHarnesses["VerifC05Pipeline"] = VerifC05Pipeline
+}
+
+// chainRequestor is a set of peers serving the blocks of the harness chain: every RequestBlock is a
+// connection that delivers the requested block, or drops after delivering all but the last
+// announced transaction (scripted per request).
+type chainRequestor struct {
+	headers  map[bitcoin.Hash32]*wire.BlockHeader
+	txs      map[bitcoin.Hash32][]*wire.MsgTx
+	script   []int // per request: 0 deliver, 1 drop mid-block
+	requests []bitcoin.Hash32
+	ctx      context.Context
+}
+
+func (r *chainRequestor) RequestBlock(ctx context.Context, hash bitcoin.Hash32, handler HandleBlock,
+	onStop OnStop) (BlockRequestCanceller, error) {
+	k := len(r.requests)
+	r.requests = append(r.requests, hash)
+	behaviour := 0
+	if k < len(r.script) {
+		behaviour = r.script[k]
+	}
+	started := false
+	can := &spyCanceller{id: uuid.New(), started: func() bool { return started }}
+	hd, ok := r.headers[hash]
+	if !ok {
+		return can, nil // nobody has this block: the request is never answered
+	}
+	txs := r.txs[hash]
+	go func() {
+		ch := make(chan *wire.MsgTx, 10)
+		announced := uint64(len(txs))
+		send := txs
+		if behaviour == 1 {
+			send = txs[:len(txs)-1]
+		}
+		for _, tx := range send {
+			ch <- tx
+		}
+		close(ch)
+		started = true
+		handler(r.ctx, hd, announced, ch)
+	}()
+	return can, nil
+}
+
+// VerifC05Pipeline: the synchroniser on top of the real header repository, the real BlockManager
+// and real BlockDownloaders, served by scripted peers: whatever peers drop mid-block, the blocks
+// from the start height to the tip are processed in ascending order, each exactly once, and a
+// block is only recorded as processed after it was processed completely.
+func VerifC05Pipeline() {
+	ctx := ctxbg()
+	n := verifParam("length", 3)
+	repo := realHeaders()
+	repo.DisableDifficulty()
+	req := &chainRequestor{headers: map[bitcoin.Hash32]*wire.BlockHeader{}, txs: map[bitcoin.Hash32][]*wire.MsgTx{}, ctx: ctx}
+	prev := repo.LastHash()
+	var chain []bitcoin.Hash32
+	chain = append(chain, prev)
+	for i := 1; i <= n; i++ {
+		txs := []*wire.MsgTx{mkTx(10 * i), mkTx(10*i + 1)}
+		hd := &wire.BlockHeader{Version: 1, Timestamp: uint32(1600000000 + 600*i), Bits: 0x1d00ffff, Nonce: uint32(i), PrevBlock: prev}
+		hd.MerkleRoot = refMerkleRoot([]bitcoin.Hash32{*txs[0].TxHash(), *txs[1].TxHash()})
+		if err := repo.ProcessHeader(ctx, hd); err != nil {
+			verifAssert(false, "setup-header-refused")
+			return
+		}
+		prev = *hd.BlockHash()
+		chain = append(chain, prev)
+		req.headers[prev] = hd
+		req.txs[prev] = txs
+	}
+	if verifParam("clean", 0) == 1 {
+		// (with scaled constants) the older part of the chain is only in the header files
+		if err := repo.Clean(ctx); err != nil {
+			verifAssert(false, "setup-clean-failed")
+		}
+		verifReach("cleaned")
+	}
+	start := 1 + pick("start", n)
+	nscript := verifParam("scripted", 2)
+	for k := 0; k < nscript; k++ {
+		req.script = append(req.script, pick(fmt.Sprintf("peer%d", k), 2))
+	}
+	spy := &pipeProcessor{}
+	spy.failAt = -1
+	btm := &pipeBlockTxs{done: map[bitcoin.Hash32]bool{}}
+	cfg := DefaultConfig()
+	cfg.StartBlockHeight = start
+	m := NewNodeManager("/verif/", cfg, repo, &spyPeers{})
+	bm := NewBlockManager(btm, req, 1, 5*time.Millisecond)
+	m.SetBlockManager(btm, bm, spy)
+	m.initialDelayComplete = true
+	interrupt := make(chan interface{})
+	var runDone sync.WaitGroup
+	runDone.Add(1)
+	go func() {
+		bm.Run(ctx, interrupt)
+		runDone.Done()
+	}()
+
+	m.TriggerBlockSynchronize(ctx)
+	m.syncBlocksWait.Wait()
+
+	heightOf := func(hash bitcoin.Hash32) int {
+		for h := range chain {
+			if chain[h].Equal(&hash) {
+				return h
+			}
+		}
+		return -1
+	}
+	verifObserve("pipeline", n, start, len(req.requests), len(btm.order))
+	// recorded as processed: exactly the blocks start..tip, in ascending order, each once
+	last := start - 1
+	for _, hash := range btm.order {
+		ht := heightOf(hash)
+		verifAssert(ht >= start, "block-below-start-height-requested")
+		verifAssert(ht == last+1, "blocks-not-recorded-in-ascending-contiguous-order")
+		last = ht
+	}
+	verifAssert(last == n, "reader-idle-with-unprocessed-best-chain-block")
+	// a recorded block was delivered completely and verified: its coinbase reached the processor
+	// (which happens only after the merkle root check), exactly once
+	for _, hash := range btm.order {
+		verifAssert(spy.coinbase[hash] == 1, "block-recorded-as-processed-without-being-processed-once")
+	}
+	close(interrupt)
+	runDone.Wait()
+	verifReach("done")
+}
+
+// pipeProcessor counts the coinbase calls per block.
+type pipeProcessor struct {
+	spyProcessor
+	coinbase map[bitcoin.Hash32]int
+}
+
+func (p *pipeProcessor) ProcessCoinbaseTx(ctx context.Context, blockHash bitcoin.Hash32, tx *wire.MsgTx) error {
+	if p.coinbase == nil {
+		p.coinbase = map[bitcoin.Hash32]int{}
+	}
+	p.coinbase[blockHash]++
+	return nil
+}
+
+// pipeBlockTxs is the processed-marker store; it remembers the order of the records.
+type pipeBlockTxs struct {
+	done  map[bitcoin.Hash32]bool
+	order []bitcoin.Hash32
+}
+
+func (b *pipeBlockTxs) FetchBlockTxIDs(ctx context.Context, h bitcoin.Hash32) ([]bitcoin.Hash32, bool, error) {
+	return nil, b.done[h], nil
+}
+func (b *pipeBlockTxs) AppendBlockTxIDs(ctx context.Context, h bitcoin.Hash32, t []bitcoin.Hash32) error {
+	b.done[h] = true
+	b.order = append(b.order, h)
+	return nil
+}
